@@ -8,31 +8,34 @@
 (***************************************************************************)
 EXTENDS Integers, Sequences, FiniteSets, TLC, Json, TLCExt, Commands
 
-VARIABLES l, pre, shown, ustack, killed, initial, clean
+VARIABLES l, pre, shown, here, ustack, killed, initial, clean
+\* here: the buffers shown since this Readline call started (the line a call starts to edit is a NEW line: its undo list is empty)
 \* clean: no history walk / search / minibuffer so far in this session (the line edited is the one the call started with)
-tvars == <<l, pre, shown, ustack, killed, initial, clean>>
+tvars == <<l, pre, shown, here, ustack, killed, initial, clean>>
 TraceLog == ndJsonDeserialize("trace.ndjson")
 Ev == TraceLog[l]
 Is(e) == l <= Len(TraceLog) /\ Ev.ev = e /\ l' = l + 1
 Last(s) == s[Len(s)]
 NoInit == [set |-> FALSE, line |-> <<>>]
 
-TInit == l = 1 /\ pre = <<>> /\ shown = {} /\ ustack = <<>> /\ killed = FALSE /\ initial = NoInit /\ clean = TRUE
-Fresh == pre' = <<>> /\ shown' = {} /\ ustack' = <<>> /\ killed' = FALSE /\ initial' = NoInit /\ clean' = TRUE
+TInit == l = 1 /\ pre = <<>> /\ shown = {} /\ here = {} /\ ustack = <<>> /\ killed = FALSE /\ initial = NoInit /\ clean = TRUE
+Fresh == pre' = <<>> /\ shown' = {} /\ here' = {} /\ ustack' = <<>> /\ killed' = FALSE /\ initial' = NoInit /\ clean' = TRUE
 TCase    == Is("case") /\ Fresh
 \* a new Readline call on the same Shell: edited history lines keep their undo lists across calls,
 \* so what was shown in earlier calls still counts as "previously shown"
 \* (cmd = "dirty": the previous call was ended from outside - the harness closed the terminal under it - and left its undo
 \*  list behind: BottomIsInitial is not asserted for the call that follows)
 TSession == Is("session") /\ pre' = <<>> /\ ustack' = <<>> /\ killed' = FALSE /\ initial' = NoInit /\ clean' = (Ev.cmd # "dirty")
-            /\ UNCHANGED shown
+            /\ UNCHANGED shown /\ here' = {}
 TWait == /\ Is("wait")
          /\ shown' = IF Ev.minibuf THEN shown ELSE shown \cup {Ev.line}
+         /\ here' = IF Ev.minibuf THEN here ELSE here \cup {Ev.line}
          /\ initial' = IF initial.set \/ Ev.minibuf THEN initial ELSE [set |-> TRUE, line |-> Ev.line]
          /\ UNCHANGED <<pre, ustack, killed, clean>>
 TBegin == /\ Is("begin")
           /\ pre' = Append(pre, Ev)
           /\ shown' = IF Ev.minibuf THEN shown ELSE shown \cup {Ev.line}
+          /\ here' = IF Ev.minibuf THEN here ELSE here \cup {Ev.line}
           /\ UNCHANGED <<ustack, killed, initial, clean>>
 
 IsRedo(p) == p.cmd \in RedoCmds /\ (p.cmd = "vi-redo" => p.upos > 0)
@@ -47,7 +50,9 @@ TEnd ==
          changed == Ev.line # p.line
      IN
      \* UndoShowsEarlier
-     /\ isUndo => Ev.line \in shown
+     \* (as long as the call has not left the line it started with - no history walk or search so far - that line is the one
+     \*  being undone and only what THIS call showed counts; history lines keep their undo lists from one call to the next)
+     /\ isUndo => Ev.line \in (IF clean THEN here ELSE shown)
      \* BottomIsInitial
      /\ (isUndo /\ ~changed /\ clean /\ initial.set) => Ev.line = initial.line
      \* RedoInverse
@@ -65,10 +70,11 @@ TEnd ==
                   ELSE IF changed THEN (ustack # <<>> \/ killed) ELSE killed
      /\ clean' = (clean /\ ~isWalk)
      /\ shown' = IF Ev.minibuf THEN shown ELSE shown \cup {Ev.line}
+     /\ here' = IF Ev.minibuf THEN here ELSE here \cup {Ev.line}
   /\ pre' = SubSeq(pre, 1, Len(pre) - 1)
   /\ UNCHANGED initial
-TReturn == Is("return") /\ UNCHANGED <<pre, shown, ustack, killed, initial, clean>>
-TParked == Is("parked") /\ UNCHANGED <<pre, shown, ustack, killed, initial, clean>>
+TReturn == Is("return") /\ UNCHANGED <<pre, shown, here, ustack, killed, initial, clean>>
+TParked == Is("parked") /\ UNCHANGED <<pre, shown, here, ustack, killed, initial, clean>>
 TNext == TCase \/ TSession \/ TWait \/ TBegin \/ TEnd \/ TReturn \/ TParked
 TraceSpec == TInit /\ [][TNext]_tvars
 Accepted == TLCGet("stats").diameter - 1 = Len(TraceLog)
